@@ -24,48 +24,112 @@ def literal_braces(s):
     return s.count("{") - s.count("}")
 
 
+def piece_of(t):
+    """(template with {} holes, hole terms) of a string-valued term"""
+    if t[0] == 'const' and isinstance(t[1], str):
+        return t[1].replace('{', '{{').replace('}', '}}') if False else t[1], (), [t[1]]
+    if t[0] == 'fmt':
+        tpl, args, lits = "", [], []
+        for part in t[1]:
+            if part[0] == 'const' and isinstance(part[1], str):
+                tpl += part[1]
+                lits.append(part[1])
+            elif part[0] == 'fmt' or (part[0] == 'binop' and part[1] == 'Add'):
+                st, sa, sl = piece_of(part)
+                tpl += st
+                args += list(sa)
+                lits += sl
+            else:
+                tpl += "{}"
+                args.append(part)
+        return tpl, tuple(args), lits
+    if t[0] == 'binop' and t[1] == 'Add':
+        a, b = piece_of(t[2]), piece_of(t[3])
+        return a[0] + b[0], a[1] + b[1], a[2] + b[2]
+    return "{}", (t,), []
+
+
+def is_stringish(t):
+    return (t[0] == 'const' and isinstance(t[1], str)) or t[0] in ('fmt', 'out', 'strcat') or \
+        (t[0] == 'mcall' and t[2] in ('repr_id', 'dot_cluster_name', 'join')) or \
+        (t[0] == 'binop' and t[1] == 'Add' and (is_stringish(t[2]) or is_stringish(t[3])))
+
+
 class DotModel(GraphModel):
-    """GraphModel + the pieces appended to the output string"""
+    """GraphModel + the string pieces the emitter appends to its output, whatever the idiom
+    (`out += piece`, `chunks.append(piece)`; str.format or f-strings)"""
 
     def on_call(self, ip, node, fterm, args, kws, st, fr):
         if fterm[0] == 'attr' and fterm[1][0] in ('elem', 'mcall', 'last') and fterm[2] != 'format':
+            callee = self.prog.supplier(self.roles.sched, fterm[2])
+            sig = self.sigs.get(callee.qualname) if callee is not None else None
+            if sig is not None and sig.raises and not fterm[2].startswith('dot_') \
+                    and fterm[2] not in ('requires',):
+                self.ev(ip, 'HELPER', node, st, fr, name=fterm[2], recv=fterm[1])
             # methods of other objects (the jobs being drawn) stay symbolic
             return [(st, T.mk(('mcall', fterm[1], fterm[2], args, kws)))]
-        if fterm[0] == 'attr' and fterm[2] == 'format' and fterm[1][0] == 'const' and isinstance(fterm[1][1], str):
-            tpl = fterm[1][1]
-            self.ev(ip, 'FMT', node, st, fr, tpl=tpl, args=args, depth=fr.depth)
-            if '->' in tpl:
-                st = st.set(nedge=min(3, st.a('nedge', 0) + 1))
-            return [(st, T.mk(('fmt', (fterm[1],) + tuple(args))))]
+        f = node.func
+        if isinstance(f, ast.Attribute) and isinstance(f.value, ast.Name) and f.attr in ('append', 'extend') \
+                and len(args) == 1 and st.var(fr.fid, f.value.id) is not None and f.value.id != 'self':
+            cur = st.var(fr.fid, f.value.id)
+            if cur[0] in ('union', 'out') and (is_stringish(args[0]) or args[0][0] == 'mcall'):
+                st = self.emit(ip, node, args[0], st, fr)
+                return [(st.with_var(fr.fid, f.value.id, T.mk(('out', f.value.id))), T.NONE)]
         return GraphModel.on_call(self, ip, node, fterm, args, kws, st, fr)
 
+    def emit(self, ip, node, piece, st, fr):
+        tpl, args, lits = piece_of(piece)
+        self.ev(ip, 'PIECE', node, st, fr, tpl=tpl, args=args, brace=st.a('brace', 0), depth=fr.depth,
+                piece=piece)
+        d = sum(literal_braces(x) for x in lits)
+        upd = {'brace': max(-2, min(3, st.a('brace', 0) + d)), 'emitted': True}
+        if '->' in tpl:
+            upd['nedge'] = min(3, st.a('nedge', 0) + 1)
+        return st.set(**upd)
+
     def on_store_name(self, ip, node, name, val, st, fr):
-        if isinstance(node, ast.AugAssign) and isinstance(node.op, ast.Add) and fr.depth == 0:
-            v = node.value
-            d = None
-            if isinstance(v, ast.Constant) and isinstance(v.value, str):
-                d = literal_braces(v.value)
-                self.ev(ip, 'EMIT', node, st, fr, text=v.value, brace=st.a('brace', 0))
-            else:
-                d = 0
-                for c in ast.walk(v):
-                    if isinstance(c, ast.Call) and isinstance(c.func, ast.Attribute) and c.func.attr == 'format' \
-                            and isinstance(c.func.value, ast.Constant) and isinstance(c.func.value.value, str):
-                        d += template_braces(c.func.value.value)
-                    elif isinstance(c, ast.Constant) and isinstance(c.value, str) and not (
-                            isinstance(getattr(c, '_parent', None), ast.Attribute)):
-                        d += literal_braces(c.value)
-                self.ev(ip, 'EMIT', node, st, fr, text=None, val=val, brace=st.a('brace', 0))
-            b = st.a('brace', 0) + d
-            b = max(-2, min(3, b))
-            return st.with_var(fr.fid, name, T.mk(('out', name))).set(brace=b, emitted=True)
-        if isinstance(node, ast.Assign) and isinstance(node.value, ast.Constant) and isinstance(node.value.value, str) \
-                and fr.depth == 0:
-            d = literal_braces(node.value.value)
-            if node.value.value:
-                self.ev(ip, 'EMIT', node, st, fr, text=node.value.value, brace=st.a('brace', 0))
-            return st.with_var(fr.fid, name, T.mk(('out', name))).set(brace=max(-2, min(3, st.a('brace', 0) + d)))
+        if isinstance(node, ast.AugAssign) and isinstance(node.op, ast.Add):
+            cur = st.var(fr.fid, name)
+            if cur is not None and (is_stringish(cur) or cur == T.mk(('const', ''))):
+                # val is the accumulated term: the piece is what was added
+                added = None
+                if val[0] == 'strcat':
+                    extra = [x for x in val[1] if not (cur[0] == 'strcat' and x in cur[1]) and x != cur]
+                    added = extra[0] if len(extra) == 1 else None
+                elif val[0] == 'binop' and val[1] == 'Add':
+                    added = val[3]
+                if added is not None and added[0] == 'out':
+                    # the pieces of an inlined helper were logged where it appended them
+                    return st.with_var(fr.fid, name, T.mk(('out', name)))
+                if added is None:
+                    # evaluate from the syntax: the right-hand side term is not recoverable
+                    added = T.mk(('unk', 'piece'))
+                st = self.emit(ip, node, added, st, fr)
+                return st.with_var(fr.fid, name, T.mk(('out', name)))
+        if isinstance(node, ast.Assign) and name in self.out_names(fr) and \
+                (is_stringish(val) or (val[0] == 'mcall' and val[2] in ('repr_id', 'dot_cluster_name'))):
+            # the output variable starts with its first piece
+            if val != T.mk(('const', '')) and val[0] != 'out':
+                st = self.emit(ip, node, val, st, fr)
+            return st.with_var(fr.fid, name, T.mk(('out', name)))
         return None
+
+    def out_names(self, fr):
+        """names a function returns (directly, or joined): its output accumulators"""
+        fn = fr.func.node
+        cache = self.__dict__.setdefault('_outn', {})
+        if id(fn) not in cache:
+            names = set()
+            for n in walk_local(fn):
+                if isinstance(n, ast.Return) and n.value is not None:
+                    v = n.value
+                    if isinstance(v, ast.Call) and isinstance(v.func, ast.Attribute) and v.func.attr == 'join' \
+                            and len(v.args) == 1:
+                        v = v.args[0]
+                    if isinstance(v, ast.Name):
+                        names.add(v.id)
+            cache[id(fn)] = names
+        return cache[id(fn)]
 
     def on_iter(self, ip, ctx, st, fr):
         if ctx.kind == 'for' and ctx.iter is not None and T.is_attr(ctx.iter, 'required') and not ip.in_summary:
@@ -99,9 +163,23 @@ def dot(ctx, rep, r1, r2, r3, r4, r5):
     if dotf is None:
         rep.error(r1, "dot_format not found")
         return
+    def reaches_itself(c):
+        seen, stack = set(), [c]
+        while stack:
+            g = stack.pop()
+            for m in walk_local(g.node):
+                if isinstance(m, ast.Call):
+                    for d in callees_by_name(p, g, m):
+                        if d is c:
+                            return True
+                        if d.qualname not in seen and d.cls is not None and r.sched in d.cls.mro \
+                                and d.name.startswith('_'):
+                            seen.add(d.qualname)
+                            stack.append(d)
+        return False
     emitters = [c for n in walk_local(dotf.node) if isinstance(n, ast.Call)
-                for c in callees_by_name(p, dotf, n)
-                if any(c in callees_by_name(p, c, m) for m in walk_local(c.node) if isinstance(m, ast.Call))]
+                for c in callees_by_name(p, dotf, n) if c.cls is not None and r.sched in c.cls.mro
+                and reaches_itself(c)]
     if not emitters:
         rep.error(r1, "body emitter (recursive function called by dot_format) not recognised")
         return
@@ -121,25 +199,35 @@ def dot(ctx, rep, r1, r2, r3, r4, r5):
         for st, val, node in out.ret:
             n += 1
             # every value of the mapping goes through the quoter
-            comps = [s for s in T.subterms(val) if s[0] == 'comp']
-            ok = False
+            comps = [s for s in T.subterms(val) if s[0] == 'comp' and isinstance(s[1], str) and len(s) == 4
+                     and s[2][0] in ('fmt', 'binop', 'mcall', 'strcat')]
+            cands = [c[2] for c in comps]
+            # the explicit-loop form: pieces collected one by one
+            cands += [s[1] for s in T.subterms(val) if s[0] == 'single' and s[1][0] in ('fmt', 'binop', 'strcat')]
             why = T.show(val, 6)[:200]
-            for c in comps:
-                for g in c[3]:
-                    pass
-                quoted = [s for s in T.subterms(c[2]) if s[0] == 'mcall' and s[2] == 'format'
-                          and s[1][0] == 'const' and isinstance(s[1][1], str) and s[1][1].startswith('"')
-                          and s[1][1].endswith('"')]
-                concat = [s for s in T.subterms(c[2]) if s[0] == 'binop' and s[1] == 'Add'
-                          and any(x == ('const', '"') for x in (s[2], s[3]))]
-                repl = [s for s in T.subterms(c[2]) if s[0] == 'mcall' and s[2] == 'replace'
-                        and len(s[3]) == 2 and s[3][0] == ('const', '"') and s[3][1] == ('const', '\\"')]
-                if (quoted or concat) and repl:
-                    ok = True
-                elif quoted or concat:
-                    why = "values are wrapped in double quotes but an embedded double quote is not escaped"
-                else:
-                    why = "values are emitted without being quoted: %s" % T.show(c[2], 4)[:160]
+            ok = bool(cands) or any(s[0] == 'union' and not s[1] for s in T.subterms(val))
+            for c in cands:
+                tpl, args, _lits = piece_of(c)
+                # holes: the key, then the value(s); every value hole sits between double quotes and is
+                # the result of escaping the embedded double quotes
+                segs = tpl.split("{}")
+                if len(args) < 2 or '=' not in segs[1]:
+                    why = "the mapping is not rendered as key=value pieces: `%s`" % tpl
+                    ok = False
+                    continue
+                for i, a in enumerate(args):
+                    if i == 0:
+                        continue
+                    enclosed = segs[i].endswith('"') and segs[i + 1].startswith('"')
+                    escaped = a[0] == 'mcall' and a[2] == 'replace' and len(a[3]) == 2 \
+                        and a[3][0] == ('const', '"') and a[3][1] == ('const', '\\"')
+                    if not enclosed:
+                        ok = False
+                        why = "values are emitted without being quoted: `%s` with %s" % (tpl, T.show(a, 4)[:120])
+                    elif not escaped:
+                        ok = False
+                        why = "values are wrapped in double quotes but an embedded double quote is not escaped: %s" \
+                            % T.show(a, 4)[:120]
             rep.check(ok, r1, "%s every attribute value is quoted and embedded quotes escaped" % ip.where(node),
                       rp.qualname, why,
                       "a label containing a double quote (or DOT punctuation) breaks the DOT syntax or is altered",
@@ -148,8 +236,8 @@ def dot(ctx, rep, r1, r2, r3, r4, r5):
         # both branches of the value helper use the quoter (explored above through inlining)
     # ------------------------------------------------------------------ emitter exploration
     an, ip, out = ctx.explore(em, model=DotModel)
-    fmts = an.events('FMT')
-    rep.need(r2, len(fmts), 4, "format templates in the emitter")
+    fmts = an.events('PIECE')
+    rep.need(r2, len(fmts), 4, "pieces appended by the emitter")
     # R20.1 (b): holes of the emitter are ids, cluster names, styles or the nested body
     safe_m = ('repr_id', 'dot_cluster_name', 'dot_style')
     for e in fmts:
@@ -254,6 +342,14 @@ def dot(ctx, rep, r1, r2, r3, r4, r5):
                       "`%s` returns %s without having established that it is not a scheduler"
                       % (src(stmt_of(e.node)), T.show(v, 3)),
                       "an edge ends at a cluster id: graphviz creates an extra, undeclared node", trace(e.st))
+    for e in an.events('HELPER'):
+        if e.data['name'] not in helpers:
+            continue
+        inreq = any(c.kind == 'for' and c.iter is not None and T.is_attr(c.iter, 'required') for c in e.loops)
+        rep.check(inreq, r4, "%s end-point helper only called for an actual requirement" % e.where, fn,
+                  "`%s` evaluated outside the loop over the requirements" % src(stmt_of(e.node))[:90],
+                  "dot_format() raises for an empty nested scheduler even when it has no requirement at all "
+                  "(the helper raises when the scheduler has no entry/exit job)", trace(e.st))
     for case in ((False, False), (False, True), (True, False), (True, True)):
         rep.check(case in cases and len(cases[case]) == 1, r2,
                   "%s one edge statement for job=%s requirement=%s" % (fn, "cluster" if case[0] else "node",
@@ -300,21 +396,19 @@ def dot(ctx, rep, r1, r2, r3, r4, r5):
         rep.check(st.a('brace', 0) == 0, r5, "%s braces balanced when the body is returned" % ip.where(node), fn,
                   "net brace count %s on this path" % st.a('brace', 0), "the DOT output is not well-bracketed",
                   trace(st))
-    emits = an.events('EMIT')
-    lit = [e for e in emits if e.data['text'] is not None]
-    opens = [e for e in lit if e.data['text'].lstrip().startswith('{')]
-    closes = [e for e in lit if e.data['text'].strip() == '}']
+    lit = [e for e in fmts if not e.data['args']]
+    opens = [e for e in lit if e.data['tpl'].lstrip().startswith('{')]
+    closes = [e for e in lit if e.data['tpl'].strip() == '}']
     rep.check(bool(opens) and all(not e.loops for e in opens), r5, "%s opens its body once" % fn, fn,
               "opening brace emitted %s" % ("in a loop" if opens else "never"), "the body is not a `{ ... }` block")
     rep.check(bool(closes) and all(not e.loops for e in closes), r5, "%s closes its body once" % fn, fn,
               "closing brace emitted %s" % ("in a loop" if closes else "never"), "the body is not a `{ ... }` block")
-    stmt_forms = [r"^\{\n$", r"^\}\n$", r"^compound=true;\n$", r"^graph \[\{\}\];\n$", r"^ ?\[\{\}\]\n$",
-                  r"^\{\} -> \{\};\n$", r"^\{\} -> \{\} \[(lhead=\{\}|ltail=\{\}|lhead=\{\} ltail=\{\})\];\n$",
-                  r"^subgraph \{\}$", r"^$"]
-    for e in fmts + lit:
-        tpl = e.data.get('tpl') if e.kind == 'FMT' else e.data['text']
-        if e.kind == 'FMT' and '{{' in tpl:
-            continue
+    stmt_forms = [r"^\{\n$", r"^\}\n$", r"^compound=true;\n$", r"^graph \[\{\}\];\n$", r"^(\{\})? ?\[\{\}\]\n$",
+                  r"^\{\}$", r"^\{\} -> \{\};\n$",
+                  r"^\{\} -> \{\} \[(lhead=\{\}|ltail=\{\}|lhead=\{\} ltail=\{\})\];\n$",
+                  r"^subgraph \{\}(\{\})?$", r"^$"]
+    for e in fmts:
+        tpl = e.data['tpl']
         ok = any(re.match(f, tpl) for f in stmt_forms)
         rep.check(ok, r5, "%s `%s` is a statement of the DOT subset" % (e.where, tpl.strip()[:40]), fn,
                   "emitted fragment %r" % tpl, "the output is not in the DOT grammar", trace(e.st))
@@ -323,67 +417,7 @@ def dot(ctx, rep, r1, r2, r3, r4, r5):
               for x in drets for c in ast.walk(x))
     rep.check(okd, r5, "%s starts with `digraph <name>`" % dotf.qualname, dotf.qualname,
               "returns %s" % [src(x)[:80] for x in drets], "the output is not a DOT graph")
-    # ------------------------------------------------------------------ R20.3 ids before use
-    id_attr = None
-    rid = p.supplier(r.jobbase, 'repr_id')
-    if rid is not None:
-        at = {n.attr for n in walk_local(rid.node) if isinstance(n, ast.Attribute) and isinstance(n.value, ast.Name)
-              and n.value.id == 'self'}
-        id_attr = at.pop() if len(at) == 1 else None
-    if id_attr is None:
-        rep.error(r3, "id attribute (read by repr_id) not recognised")
-    else:
-        sigs = ctx.sigs
-        numbering = {q for q, s_ in sigs.items() if id_attr in s_.stores}
-        for name in ('dot_format', 'list'):
-            f = p.supplier(r.sched, name)
-            first_num = first_use = None
-            for i, s_ in enumerate(f.node.body):
-                for n in ast.walk(s_):
-                    if isinstance(n, ast.Call):
-                        for c in callees_by_name(p, f, n):
-                            if c.qualname in numbering and c.name != name and first_num is None \
-                                    and 'safe' not in c.name:
-                                first_num = i
-                            if (c is em or c.name in ('_list', 'repr_id')) and first_use is None:
-                                first_use = i
-            rep.check(first_num is not None and (first_use is None or first_num < first_use), r3,
-                      "%s numbers the jobs before using their ids" % f.qualname, f.qualname,
-                      "ids assigned at statement %s, used at statement %s" % (first_num, first_use),
-                      "jobs are drawn/listed with stale or missing ids: nodes collide or show as ??")
-        lst = p.supplier(r.sched, 'list')
-        uses = [n for n in walk_local(lst.node) if isinstance(n, ast.For) and isinstance(n.iter, ast.Call)
-                and dotted(n.iter.func) == 'self.topological_order']
-        rep.check(bool(uses), r3, "%s lists in topological order" % lst.qualname, lst.qualname,
-                  "list() does not iterate over self.topological_order()", "jobs are not listed in topological order")
-        # nested numbering hook: one id for the cluster, then its members; count hook agrees
-        hook = None
-        for m, f in r.jobbase.methods.items():
-            if id_attr in {n.attr for n in walk_local(f.node) if isinstance(n, ast.Attribute)
-                           and isinstance(n.ctx, ast.Store)}:
-                hook = m
-        for cls in r.nestable:
-            if hook is None:
-                break
-            f = cls.methods.get(hook)
-            rep.check(f is not None, r3, "%s overrides the numbering hook" % cls.name, "class " + cls.name,
-                      "%s.%s is inherited from %s" % (cls.name, hook, p.supplier(cls, hook).cls.name),
-                      "the jobs of a nested scheduler are not numbered: ids collide across the tree")
-            if f is None:
-                continue
-            calls = [n for n in walk_local(f.node) if isinstance(n, ast.Call) and isinstance(n.func, ast.Attribute)]
-            own = [n for n in calls if n.func.attr == hook and dotted(n.func.value) in p.classes]
-            deep = [n for n in calls for c in callees_by_name(p, f, n) if c.qualname in numbering
-                    and c.cls is not None and r.sched in c.cls.mro and c is not f and n not in own]
-            rep.check(bool(own) and bool(deep), r3, "%s.%s takes one id for the cluster and numbers its members"
-                      % (cls.name, hook), f.qualname,
-                      "own id: %s, members: %s" % ([src(n)[:50] for n in own], [src(n)[:50] for n in deep]),
-                      "ids are not unique tree-wide")
-            rets = [n for n in walk_local(f.node) if isinstance(n, ast.Return)]
-            rep.check(any(isinstance(x.value, ast.Call) and x.value in deep for x in rets), r3,
-                      "%s.%s returns the next free id after its members" % (cls.name, hook), f.qualname,
-                      "returns %s" % [src(x)[:60] for x in rets],
-                      "the id following a nested scheduler collides with an id used inside it")
+    numbering(ctx, rep, r3, em)
     # ------------------------------------------------------------------ R20.4 exception escape
     reach = {}
     stack = [dotf]
@@ -420,3 +454,111 @@ def dot(ctx, rep, r1, r2, r3, r4, r5):
                          "dot_format() raises for an admissible tree: an empty nested scheduler that has, or is, "
                          "a requirement has no entry/exit job to attach the edge to")
     rep.need(r4, nraise, 1, "raise statements reachable from dot_format")
+
+
+def numbering(ctx, rep, r3, em=None):
+    """R20.3 / R15.5: ids assigned before use, on every call; tree-wide numbering"""
+    r = ctx.roles
+    p = ctx.prog
+    if em is None:
+        dotf = p.supplier(r.sched, 'dot_format')
+        ems = [c for n in walk_local(dotf.node) if isinstance(n, ast.Call)
+               for c in callees_by_name(p, dotf, n)
+               if any(c in callees_by_name(p, c, m) for m in walk_local(c.node) if isinstance(m, ast.Call))]
+        em = ems[0] if ems else None
+    id_attr = None
+    rid = p.supplier(r.jobbase, 'repr_id')
+    if rid is not None:
+        at = {n.attr for n in walk_local(rid.node) if isinstance(n, ast.Attribute) and isinstance(n.value, ast.Name)
+              and n.value.id == 'self'}
+        id_attr = at.pop() if len(at) == 1 else None
+    if id_attr is None:
+        rep.error(r3, "id attribute (read by repr_id) not recognised")
+    else:
+        sigs = ctx.sigs
+        numbering = {q for q, s_ in sigs.items() if id_attr in s_.stores}
+        for name in ('dot_format', 'list'):
+            f = p.supplier(r.sched, name)
+            first_num = first_use = None
+            conditional = None
+            for i, s_ in enumerate(f.node.body):
+                for n in ast.walk(s_):
+                    if isinstance(n, ast.Call):
+                        for c in callees_by_name(p, f, n):
+                            if c.qualname in numbering and c.name != name and first_num is None \
+                                    and 'safe' not in c.name:
+                                first_num = i
+                                if isinstance(s_, (ast.If, ast.While, ast.For, ast.Try)):
+                                    conditional = s_
+                            if (c is em or c.name in ('_list', 'repr_id')) and first_use is None:
+                                first_use = i
+            rep.check(conditional is None, r3, "%s numbers the jobs on every call" % f.qualname, f.qualname,
+                      "ids are (re)assigned only under `%s`" % (src(conditional.test)
+                                                                 if isinstance(conditional, (ast.If, ast.While)) else 'a condition'),
+                      "after an edit of the requirements the jobs are listed / drawn with the numbering of the "
+                      "previous graph: a job can be numbered before its requirement")
+            rep.check(first_num is not None and (first_use is None or first_num < first_use), r3,
+                      "%s numbers the jobs before using their ids" % f.qualname, f.qualname,
+                      "ids assigned at statement %s, used at statement %s" % (first_num, first_use),
+                      "jobs are drawn/listed with stale or missing ids: nodes collide or show as ??")
+        lst = p.supplier(r.sched, 'list')
+        uses = [n for n in walk_local(lst.node) if isinstance(n, ast.For) and isinstance(n.iter, ast.Call)
+                and dotted(n.iter.func) == 'self.topological_order']
+        rep.check(bool(uses), r3, "%s lists in topological order" % lst.qualname, lst.qualname,
+                  "list() does not iterate over self.topological_order()", "jobs are not listed in topological order")
+        # nested numbering hook: one id for the cluster, then its members; count hook agrees
+        hook = None
+        for m, f in r.jobbase.methods.items():
+            if id_attr in {n.attr for n in walk_local(f.node) if isinstance(n, ast.Attribute)
+                           and isinstance(n.ctx, ast.Store)}:
+                hook = m
+        # the scheduler-side numbering takes the next free id from what each member's hook
+        # returns (a nested scheduler consumes 1 + its members): it does not recompute it
+        for q in sorted(numbering):
+            g = p.funcs.get(q)
+            if g is None or g.cls is None or r.sched not in g.cls.mro or hook is None or g.name == hook \
+                    or 'safe' in g.name:
+                continue
+            loops = [n for n in walk_local(g.node) if isinstance(n, ast.For)]
+            for lp in loops:
+                calls = [n for n in ast.walk(lp) if isinstance(n, ast.Call) and isinstance(n.func, ast.Attribute)
+                         and n.func.attr == hook]
+                if not calls:
+                    continue
+                okret = False
+                for n in ast.walk(lp):
+                    if isinstance(n, ast.Assign) and n.value in calls and isinstance(n.targets[0], ast.Name):
+                        cnt = n.targets[0].id
+                        first = calls[0].args[0] if calls[0].args else None
+                        okret = isinstance(first, ast.Name) and first.id == cnt
+                others = [n for n in ast.walk(lp) if isinstance(n, ast.AugAssign)]
+                rep.check(okret and not others, r3, "%s next id is what the member's numbering returned" % g.qualname,
+                          g.qualname, "`%s`%s" % (src(calls[0]), " followed by `%s`" % src(others[0]) if others else
+                                                   " whose result is not the next index"),
+                          "the id following a nested scheduler is computed separately from the ids it consumed: "
+                          "two jobs of a deep tree get the same id")
+        for cls in r.nestable:
+            if hook is None:
+                break
+            f = cls.methods.get(hook)
+            rep.check(f is not None, r3, "%s overrides the numbering hook" % cls.name, "class " + cls.name,
+                      "%s.%s is inherited from %s" % (cls.name, hook, p.supplier(cls, hook).cls.name),
+                      "the jobs of a nested scheduler are not numbered: ids collide across the tree")
+            if f is None:
+                continue
+            calls = [n for n in walk_local(f.node) if isinstance(n, ast.Call) and isinstance(n.func, ast.Attribute)]
+            own = [n for n in calls if n.func.attr == hook and dotted(n.func.value) in p.classes]
+            deep = [n for n in calls for c in callees_by_name(p, f, n) if c.qualname in numbering
+                    and c.cls is not None and r.sched in c.cls.mro and c is not f and n not in own]
+            rep.check(bool(own) and bool(deep), r3, "%s.%s takes one id for the cluster and numbers its members"
+                      % (cls.name, hook), f.qualname,
+                      "own id: %s, members: %s" % ([src(n)[:50] for n in own], [src(n)[:50] for n in deep]),
+                      "ids are not unique tree-wide")
+            rets = [n for n in walk_local(f.node) if isinstance(n, ast.Return)]
+            via_local = {t.id for n in walk_local(f.node) if isinstance(n, ast.Assign) and n.value in deep
+                         for t in n.targets if isinstance(t, ast.Name)}
+            rep.check(any((isinstance(x.value, ast.Call) and x.value in deep) or
+                          (isinstance(x.value, ast.Name) and x.value.id in via_local) for x in rets), r3,
+                      "%s.%s returns the next free id after its members" % (cls.name, hook), f.qualname,
+                      "returns %s" % [src(x)[:60] for x in rets],
+                      "the id following a nested scheduler collides with an id used inside it")
